@@ -393,6 +393,17 @@ def dump(ctx, full=True):
                 d['live'][var] = '<badtype>'
         els.append(d)
     out['elems'] = els
+    # raw (value, unit) of the series a stop condition senses: exact
+    # same-unit comparisons can then be judged exactly (C16)
+    raw = []
+    for ss in ctx.scn.get('stops', []):
+        var = SENSOR_VAR[ss['sensor']][0]
+        try:
+            lst = ctx.objs[ss['target']].time_variables.get(var, [])
+            raw.append([[x.value, x.unit] for x in lst])
+        except Exception:      # noqa
+            raw.append(None)
+    out['stop_raw'] = raw
     return out
 
 
